@@ -59,6 +59,10 @@ type TxnRec struct {
 	CommitTS    uint64
 	CommitStep  [2]int // driver step before / after Commit returned
 	ModeUsed    string // 2pc | async | 1pc (from the commit callback info when available)
+	// for the request-stream monitor (C04)
+	CommitCallEv       int64  // global event counter just before Commit was called
+	EndEv              int64  // ... just after Commit / Rollback returned (0 = never ended)
+	MaxTSOBeforeCommit uint64 // largest timestamp any client had been granted when Commit was called
 }
 
 // ClassifyCommitErr maps a Commit error to the classes the properties speak about.
